@@ -19,9 +19,9 @@ namespace VelaVerif.Constraints.Spec
 open VelaVerif.Gen.Constraints VelaVerif.Constraints
 
 structure Report where
-  table : List (String × Bool)
-  generic : List (String × List String)
-  specific : List (String × List String)
+  table : List (Name × Bool)
+  generic : List (Name × List Name)
+  specific : List (Name × List Name)
 deriving Repr, DecidableEq, Inhabited
 
 def freshReport : Report := ⟨freshTable, freshGeneric, freshSpecific⟩
@@ -30,212 +30,242 @@ def committedReport : Report := ⟨committedTable, committedGeneric, committedSp
 -- ------------------------------------------------------------------------------------------------
 -- text utilities
 
+def isDigit (c : Nat) : Bool := decide (48 ≤ c) && decide (c ≤ 57)
+
 /-- all maximal digit runs of a text, as numbers -/
-def nums (s : String) : List Nat :=
-  let rec go (cs : List Char) (cur : Option Nat) (acc : List Nat) : List Nat :=
+def nums (s : Name) : List Nat :=
+  let rec go (cs : List Nat) (cur : Option Nat) (acc : List Nat) : List Nat :=
     match cs with
     | [] => match cur with | some n => (n :: acc).reverse | none => acc.reverse
     | c :: cs =>
-      if c.isDigit then go cs (some (cur.getD 0 * 10 + (c.toNat - 48))) acc
+      if isDigit c then go cs (some (cur.getD 0 * 10 + (c - 48))) acc
       else match cur with | some n => go cs none (n :: acc) | none => go cs none acc
-  go s.toList none []
+  go s none []
 
-def hashDigits (cs : List Char) : List Char :=
-  let rec go (cs : List Char) (inNum : Bool) : List Char :=
+/-- every digit run replaced by one `#` (35) -/
+def hashDigits (cs : List Nat) : List Nat :=
+  let rec go (cs : List Nat) (inNum : Bool) : List Nat :=
     match cs with
     | [] => []
-    | c :: cs => if c.isDigit then (if inNum then go cs true else '#' :: go cs true) else c :: go cs false
+    | c :: cs => if isDigit c then (if inNum then go cs true else 35 :: go cs true) else c :: go cs false
   go cs false
 
-def firstLine (s : String) : String := (s.splitOn "\n").headD ""
+def firstLine (cs : Name) : Name := cs.takeWhile (· != 10)
 
-def listIntro : List String := ["of type: ", "op type: ", "op types: ", "type is: "]
+/-- split at the first occurrence of `pat` -/
+def splitAtSub (pat : List Nat) : List Nat → Option (List Nat × List Nat)
+  | [] => if pat.isEmpty then some ([], []) else none
+  | c :: cs =>
+    if pat.isPrefixOf (c :: cs) then some ([], (c :: cs).drop pat.length)
+    else (splitAtSub pat cs).map fun (a, b) => (c :: a, b)
 
-/-- (sentence without its trailing enumeration, the enumeration) -/
-def cutEnumeration (line : String) : String × List String :=
-  match listIntro.findSome? (fun k => match line.splitOn k with
-      | [a, b] => some (a ++ k, b)
-      | _ => none) with
-  | some (a, b) => (a, (b.splitOn ", ").filter (· ≠ ""))
-  | none => (line, [])
+/-- split on ", " -/
+def splitCommaSpace (cs : List Nat) : List (List Nat) :=
+  let rec go (cs : List Nat) (cur : List Nat) : List (List Nat) :=
+    match cs with
+    | [] => [cur.reverse]
+    | 44 :: 32 :: rest => cur.reverse :: go rest []
+    | c :: rest => go rest (c :: cur)
+  go cs []
+
+/-- what precedes the ": " that introduces an enumeration, reversed -/
+def listIntroRev : List Name := [n!"epyt fo", n!"epyt po", n!"sepyt po", n!"si epyt"]
+
+/-- (sentence without its trailing enumeration, the enumeration): one pass, cutting after the first
+    ": " that follows "of type" / "op type" / "op types" / "type is" -/
+def cutEnumeration (line : Name) : Name × List Name :=
+  let rec go (cs : List Nat) (acc : List Nat) : Name × List Name :=
+    match cs with
+    | [] => (acc.reverse, [])
+    | 58 :: 32 :: rest =>
+      if listIntroRev.any fun k => k.isPrefixOf acc then
+        ((32 :: 58 :: acc).reverse, (splitCommaSpace rest).filter (!·.isEmpty))
+      else go (32 :: rest) (58 :: acc)
+    | c :: rest => go rest (c :: acc)
+  go line []
 
 /-- the key under which a bullet is read -/
-def normalise (bullet : String) : String :=
-  String.ofList (hashDigits (cutEnumeration (firstLine bullet)).1.toList)
+def normalise (bullet : Name) : Name := hashDigits (cutEnumeration (firstLine bullet)).1
 
 -- ------------------------------------------------------------------------------------------------
 -- reading of the sentences: key ↦ (constraint, is it a TFLiteSemantic constraint)
 
-def docKeys : List (String × String × Bool) := [
-    ("Constant tensors should not have NoneType-values", "constraint_none_const_tensors", true),
-    ("All required operator attributes must be specified", "constraint_attributes_specified", true),
-    ("Input(s) and Output tensors must not be dynamic", "constraint_tens_no_dynamic", true),
-    ("Input(s) and Output tensors must have a defined shape", "constraint_tens_defined_shape", true),
-    ("Output tensors cannot be scalar", "constraint_tens_output_scalar", true),
-    ("Scalar Input tensors are only valid for op type: ", "constraint_tens_input_scalar", true),
-    ("Input(s) and Output tensors must not be greater than #D", "constraint_tens_shape_size", true),
-    ("Input(s), Output and Weight tensors must have quantization parameters", "constraint_tens_quant_none_check", true),
-    ("Input(s), Output and Weight tensors with quantization scales must be finite", "constraint_tens_quant_scale", true),
-    ("The output tensor(s) must have #D shape", "constraint_fc_output_2d", true),
-    ("Stride values for both width and height must be integer types", "constraint_stride_type", true),
-    ("IFM depth must be a whole multiple of the filter kernel depth", "constraint_conv_groups_ifm_depth", true),
-    ("Number of filter kernels must be equally divisible by the number of convolution groups", "constraint_conv_groups_num_filters", true),
-    ("Dilation factor values for both width and height must be integer types", "constraint_dilation_type", true),
-    ("Input and Output tensors must have quantization scales that fit within float# precision", "constraint_quant_scale_inf", true),
-    ("IFM and OFM data types must match", "constraint_matching_in_out_types", true),
-    ("Beta value needs to be positive", "constraint_beta_value_range", true),
-    ("Kernel filter values for both width and height must be integer types", "constraint_filter_type", true),
-    ("IFM and OFM shapes must match", "constraint_matching_shapes", true),
-    ("Axis value must be in the range [-RANK(IFM) to +RANK(IFM))", "constraint_split_axis", true),
-    ("Axis must be divisible by number of splits", "constraint_split_num_splits", true),
-    ("Only one size is allowed to be inferred", "constraint_splitv_inferred", true),
-    ("Axis attribute must exist", "constraint_axis_exists", true),
-    ("Axis attribute must be in the range [#, <ofm_dimensions>)", "constraint_axis_valid", true),
-    ("All Input dimensionalities must match OFM dimensionality", "constraint_matching_dimensionality", true),
-    ("All Input dimensions must match OFM dimension in all axes except the one defined by the axis attribute", "constraint_valid_dimensions", true),
-    ("The size of the OFM axis must match the sum of all IFM axis defined by the axis attribute", "constraint_valid_dimensions_axis", true),
-    ("Exactly # Input tensors are required", "constraint_stridedslice_input_count", true),
-    ("Number of input tensors must be exactly #", "constraint_pad_input_count", true),
-    ("The padding tensor must be constant", "constraint_pad_constant", true),
-    ("Shape of output tensor must equal to size of input tensor plus padding", "constraint_pad_output_shape", true),
-    ("Begin, End and Stride Input tensors must be constant", "constraint_stridedslice_inputs_const", true),
-    ("ellipsis_mask must be #", "constraint_ellipsis_mask", true),
-    ("new_axis_mask and shrink_axis_mask cannot both be set", "constraint_axis_masks", true),
-    ("Slice 'end' values must be greater than 'begin' values", "constraint_slice_ranges", true),
-    ("Both Input data types must match", "constraint_matching_inputs_types", true),
-    ("For IFM that are signed, OFM must also be signed", "constraint_matching_signed", true),
-    ("For IFM that are unsigned, OFM must either be the same type or int#", "constraint_unsigned_valid", true),
-    ("IFM must be int# or int#", "constraint_input_signed", true),
-    ("IFM must be int# or uint#", "constraint_input_8bit", true),
-    ("OFM must be int# or int#", "constraint_argmax_output", true),
-    ("At least one Input's shape must match the OFM's shape", "constraint_matching_either_shapes", true),
-    ("The IFM and OFM must have the same number of dimensions if keep_num_dims is set to true", "constraint_keep_dim_ifm_ofm", true),
-    ("Input tensor must be at least #D", "constraint_mean_input_dims", true),
-    ("Requirements for axis parameter:", "constraint_mean_axis", true),
-    ("Input and output quantisation must match.", "constraint_matching_in_out_quant", true),
-    ("Input and output number of elements must match.", "constraint_matching_in_out_elements", true),
-    ("IFM and OFM must have #D shape", "constraint_lstm_dimensions", true),
-    ("Must have # input tensors", "constraint_lstm_inputs", true),
-    ("Must have # intermediate tensors", "constraint_lstm_intermediates", true),
-    ("State tensors must be variable", "constraint_lstm_variables", true),
-    ("Permutation array must be a #D tensor with RANK(IFM) elements", "constraint_transpose_permutation_size", true),
-    ("Permutation array must have constant values in the range [#, RANK(IFM))", "constraint_transpose_permutation_values", true),
-    ("Tensors must be of type: ", "constraint_tens_dtype", false),
-    ("Tensors which are int# are only valid when op type is: ", "constraint_tens_int32_ops", false),
-    ("Tensor dimensions must be in the range [#, #]", "constraint_tens_dimension", false),
-    ("Per-axis quantization is only supported for the following op types: ", "constraint_tens_quant_per_axis", false),
-    ("The fused activation function (if present) must be one of type: ", "constraint_faf", false),
-    ("If a fused activation function is present, the Output tensor must be one of type: ", "constraint_faf_type", false),
-    ("Stride values for both width and height must be in the range [#, #]", "constraint_stride_range", false),
-    ("Dilated kernel height must be in the range [#, #]", "constraint_dilated_height_range", false),
-    ("Product of dilated kernel width and height must be in the range [#, #]", "constraint_dilated_product_range", false),
-    ("Weight tensor must be #-bit", "constraint_weights_type", false),
-    ("Weight tensor must be constant", "constraint_weights_const", false),
-    ("The sum of the weights cannot exceed #", "constraint_weights_limit", false),
-    ("Optional Bias tensor must be of shape: #D", "constraint_bias_shape", false),
-    ("Optional Bias tensor must be of type: ", "constraint_bias_type", false),
-    ("Optional Bias tensor values must fit within #-bits", "constraint_bias_40bit", false),
-    ("IFM Tensor batch size must be #", "constraint_batch_size", false),
-    ("For depth multipliers > #, IFM channels must be # and OFM channels must be equal to the depth multiplier", "constraint_depth_multiplier", false),
-    ("Strides must fulfil the following criteria:", "constraint_stride_width_no_upper_limit", false),
-    ("Stride width must be greater than or equal to #.", "constraint_stride_range_no_padding", false),
-    ("Stride values for both width and height must be between # and #", "constraint_depthwise_conv_stride", false),
-    ("Stride values for width and height must match one of the following criteria:", "constraint_tconv_stride", false),
-    ("SAME padding: OFM dimensions must equal IFM dimensions multiplied by stride", "constraint_tconv_same", false),
-    ("VALID padding: OFM dimensions must equal IFM dimensions multiplied by stride,", "constraint_tconv_valid", false),
-    ("Kernel filter values for both width and height must be in the range [#, #]", "constraint_filter_range", false),
-    ("Kernel filter height must be in the range [#, #]", "constraint_filter_height_range", false),
-    ("Product of kernel filter width and height must be in the range [#, #]", "constraint_filter_product_range", false),
-    ("VALID padding: Kernel filter height must be in the range [#, #]", "constraint_filter_height_range_valid_pad", false),
-    ("VALID padding: Product of kernel filter width and height must be in the range [#, #]", "constraint_filter_product_range_valid_pad", false),
-    ("The width and height of the IFM and OFM must match one of the following criteria:", "constraint_resize", false),
-    ("The size tensor must match the output tensor shape", "constraint_resize_size", false),
-    ("Both align_corners and half_pixel_centers can't be True", "constraint_resize_attrs", false),
-    ("For half_pixel_centers the width and height of the IFM and OFM must match one of the following criteria:", "constraint_resizebi_half_pixel_centers_dims", false),
-    ("The padding tensor must have the shape [#,#] or [#,#]", "constraint_pad_shape", false),
-    ("Pad tensor must be of type: ", "constraint_pad_type", false),
-    ("The pad tensor can only pad width and height", "constraint_padding_dimensions", false),
-    ("All Strides values must be #", "constraint_stridedslice_stride_values", false),
-    ("Offset attribute must be False", "constraint_stridedslice_offset_false", false),
-    ("Both Input data types must be int#", "constraint_inputs_int32", false),
-    ("OFM must be int#", "constraint_output_int32", false),
-    ("Both Input quantization parameters must match OFM quantization parameters", "constraint_matching_quantization_parameters", false),
-    ("Broadcasting is only allowed for rank indices with dimension #, from either IFM# or IFM#", "constraint_broadcast_shapes", false),
-    ("Product of reduced axes must be no greater than:", "constraint_mean_height_width_product", false),
-    ("If Width axis is reduced its shape must be no greater than #.", "constraint_mean_width", false),
-    ("If Depth axis is reduced its shape must be no greater than #.", "constraint_mean_depth", false),
-    ("Shape must be constant", "constraint_reshape_shape_constant", false),
-    ("Operation must be performed along the depth axis", "constraint_argmax_axis", false),
-    ("IFM depth must be no greater than #", "constraint_argmax_depth", false),
-    ("Must not use CIFG", "constraint_lstm_no_cifg", false),
-    ("Must not use Peephole", "constraint_lstm_no_peep_hole", false),
-    ("Must not use Projection", "constraint_lstm_no_projection", false),
-    ("Must not use Normalisation", "constraint_lstm_no_normalisation", false),
-    ("All input and recurrent weights must be available", "constraint_lstm_weights", false),
-    ("All recurrent weights must be #D", "constraint_lstm_weight_dimensions", false),
-    ("IFM must be int#", "constraint_rsqrt_input_int8", false),
-    ("Begin and Size Input tensors must be constant", "constraint_slice_inputs_const", false),
-    ("The following shape/permutations are supported for transpose:", "constraint_transpose", false) ]
+set_option maxRecDepth 200000 in
+def docKeys : List (Name × Name × Bool) := [
+    (n!"Constant tensors should not have NoneType-values", n!"constraint_none_const_tensors", true),
+    (n!"All required operator attributes must be specified", n!"constraint_attributes_specified", true),
+    (n!"Input(s) and Output tensors must not be dynamic", n!"constraint_tens_no_dynamic", true),
+    (n!"Input(s) and Output tensors must have a defined shape", n!"constraint_tens_defined_shape", true),
+    (n!"Output tensors cannot be scalar", n!"constraint_tens_output_scalar", true),
+    (n!"Scalar Input tensors are only valid for op type: ", n!"constraint_tens_input_scalar", true),
+    (n!"Input(s) and Output tensors must not be greater than #D", n!"constraint_tens_shape_size", true),
+    (n!"Input(s), Output and Weight tensors must have quantization parameters", n!"constraint_tens_quant_none_check", true),
+    (n!"Input(s), Output and Weight tensors with quantization scales must be finite", n!"constraint_tens_quant_scale", true),
+    (n!"The output tensor(s) must have #D shape", n!"constraint_fc_output_2d", true),
+    (n!"Stride values for both width and height must be integer types", n!"constraint_stride_type", true),
+    (n!"IFM depth must be a whole multiple of the filter kernel depth", n!"constraint_conv_groups_ifm_depth", true),
+    (n!"Number of filter kernels must be equally divisible by the number of convolution groups", n!"constraint_conv_groups_num_filters", true),
+    (n!"Dilation factor values for both width and height must be integer types", n!"constraint_dilation_type", true),
+    (n!"Input and Output tensors must have quantization scales that fit within float# precision", n!"constraint_quant_scale_inf", true),
+    (n!"IFM and OFM data types must match", n!"constraint_matching_in_out_types", true),
+    (n!"Beta value needs to be positive", n!"constraint_beta_value_range", true),
+    (n!"Kernel filter values for both width and height must be integer types", n!"constraint_filter_type", true),
+    (n!"IFM and OFM shapes must match", n!"constraint_matching_shapes", true),
+    (n!"Axis value must be in the range [-RANK(IFM) to +RANK(IFM))", n!"constraint_split_axis", true),
+    (n!"Axis must be divisible by number of splits", n!"constraint_split_num_splits", true),
+    (n!"Only one size is allowed to be inferred", n!"constraint_splitv_inferred", true),
+    (n!"Axis attribute must exist", n!"constraint_axis_exists", true),
+    (n!"Axis attribute must be in the range [#, <ofm_dimensions>)", n!"constraint_axis_valid", true),
+    (n!"All Input dimensionalities must match OFM dimensionality", n!"constraint_matching_dimensionality", true),
+    (n!"All Input dimensions must match OFM dimension in all axes except the one defined by the axis attribute", n!"constraint_valid_dimensions", true),
+    (n!"The size of the OFM axis must match the sum of all IFM axis defined by the axis attribute", n!"constraint_valid_dimensions_axis", true),
+    (n!"Exactly # Input tensors are required", n!"constraint_stridedslice_input_count", true),
+    (n!"Number of input tensors must be exactly #", n!"constraint_pad_input_count", true),
+    (n!"The padding tensor must be constant", n!"constraint_pad_constant", true),
+    (n!"Shape of output tensor must equal to size of input tensor plus padding", n!"constraint_pad_output_shape", true),
+    (n!"Begin, End and Stride Input tensors must be constant", n!"constraint_stridedslice_inputs_const", true),
+    (n!"ellipsis_mask must be #", n!"constraint_ellipsis_mask", true),
+    (n!"new_axis_mask and shrink_axis_mask cannot both be set", n!"constraint_axis_masks", true),
+    (n!"Slice 'end' values must be greater than 'begin' values", n!"constraint_slice_ranges", true),
+    (n!"Both Input data types must match", n!"constraint_matching_inputs_types", true),
+    (n!"For IFM that are signed, OFM must also be signed", n!"constraint_matching_signed", true),
+    (n!"For IFM that are unsigned, OFM must either be the same type or int#", n!"constraint_unsigned_valid", true),
+    (n!"IFM must be int# or int#", n!"constraint_input_signed", true),
+    (n!"IFM must be int# or uint#", n!"constraint_input_8bit", true),
+    (n!"OFM must be int# or int#", n!"constraint_argmax_output", true),
+    (n!"At least one Input's shape must match the OFM's shape", n!"constraint_matching_either_shapes", true),
+    (n!"The IFM and OFM must have the same number of dimensions if keep_num_dims is set to true", n!"constraint_keep_dim_ifm_ofm", true),
+    (n!"Input tensor must be at least #D", n!"constraint_mean_input_dims", true),
+    (n!"Requirements for axis parameter:", n!"constraint_mean_axis", true),
+    (n!"Input and output quantisation must match.", n!"constraint_matching_in_out_quant", true),
+    (n!"Input and output number of elements must match.", n!"constraint_matching_in_out_elements", true),
+    (n!"IFM and OFM must have #D shape", n!"constraint_lstm_dimensions", true),
+    (n!"Must have # input tensors", n!"constraint_lstm_inputs", true),
+    (n!"Must have # intermediate tensors", n!"constraint_lstm_intermediates", true),
+    (n!"State tensors must be variable", n!"constraint_lstm_variables", true),
+    (n!"Permutation array must be a #D tensor with RANK(IFM) elements", n!"constraint_transpose_permutation_size", true),
+    (n!"Permutation array must have constant values in the range [#, RANK(IFM))", n!"constraint_transpose_permutation_values", true),
+    (n!"Tensors must be of type: ", n!"constraint_tens_dtype", false),
+    (n!"Tensors which are int# are only valid when op type is: ", n!"constraint_tens_int32_ops", false),
+    (n!"Tensor dimensions must be in the range [#, #]", n!"constraint_tens_dimension", false),
+    (n!"Per-axis quantization is only supported for the following op types: ", n!"constraint_tens_quant_per_axis", false),
+    (n!"The fused activation function (if present) must be one of type: ", n!"constraint_faf", false),
+    (n!"If a fused activation function is present, the Output tensor must be one of type: ", n!"constraint_faf_type", false),
+    (n!"Stride values for both width and height must be in the range [#, #]", n!"constraint_stride_range", false),
+    (n!"Dilated kernel height must be in the range [#, #]", n!"constraint_dilated_height_range", false),
+    (n!"Product of dilated kernel width and height must be in the range [#, #]", n!"constraint_dilated_product_range", false),
+    (n!"Weight tensor must be #-bit", n!"constraint_weights_type", false),
+    (n!"Weight tensor must be constant", n!"constraint_weights_const", false),
+    (n!"The sum of the weights cannot exceed #", n!"constraint_weights_limit", false),
+    (n!"Optional Bias tensor must be of shape: #D", n!"constraint_bias_shape", false),
+    (n!"Optional Bias tensor must be of type: ", n!"constraint_bias_type", false),
+    (n!"Optional Bias tensor values must fit within #-bits", n!"constraint_bias_40bit", false),
+    (n!"IFM Tensor batch size must be #", n!"constraint_batch_size", false),
+    (n!"For depth multipliers > #, IFM channels must be # and OFM channels must be equal to the depth multiplier", n!"constraint_depth_multiplier", false),
+    (n!"Strides must fulfil the following criteria:", n!"constraint_stride_width_no_upper_limit", false),
+    (n!"Stride width must be greater than or equal to #.", n!"constraint_stride_range_no_padding", false),
+    (n!"Stride values for both width and height must be between # and #", n!"constraint_depthwise_conv_stride", false),
+    (n!"Stride values for width and height must match one of the following criteria:", n!"constraint_tconv_stride", false),
+    (n!"SAME padding: OFM dimensions must equal IFM dimensions multiplied by stride", n!"constraint_tconv_same", false),
+    (n!"VALID padding: OFM dimensions must equal IFM dimensions multiplied by stride,", n!"constraint_tconv_valid", false),
+    (n!"Kernel filter values for both width and height must be in the range [#, #]", n!"constraint_filter_range", false),
+    (n!"Kernel filter height must be in the range [#, #]", n!"constraint_filter_height_range", false),
+    (n!"Product of kernel filter width and height must be in the range [#, #]", n!"constraint_filter_product_range", false),
+    (n!"VALID padding: Kernel filter height must be in the range [#, #]", n!"constraint_filter_height_range_valid_pad", false),
+    (n!"VALID padding: Product of kernel filter width and height must be in the range [#, #]", n!"constraint_filter_product_range_valid_pad", false),
+    (n!"The width and height of the IFM and OFM must match one of the following criteria:", n!"constraint_resize", false),
+    (n!"The size tensor must match the output tensor shape", n!"constraint_resize_size", false),
+    (n!"Both align_corners and half_pixel_centers can't be True", n!"constraint_resize_attrs", false),
+    (n!"For half_pixel_centers the width and height of the IFM and OFM must match one of the following criteria:", n!"constraint_resizebi_half_pixel_centers_dims", false),
+    (n!"The padding tensor must have the shape [#,#] or [#,#]", n!"constraint_pad_shape", false),
+    (n!"Pad tensor must be of type: ", n!"constraint_pad_type", false),
+    (n!"The pad tensor can only pad width and height", n!"constraint_padding_dimensions", false),
+    (n!"All Strides values must be #", n!"constraint_stridedslice_stride_values", false),
+    (n!"Offset attribute must be False", n!"constraint_stridedslice_offset_false", false),
+    (n!"Both Input data types must be int#", n!"constraint_inputs_int32", false),
+    (n!"OFM must be int#", n!"constraint_output_int32", false),
+    (n!"Both Input quantization parameters must match OFM quantization parameters", n!"constraint_matching_quantization_parameters", false),
+    (n!"Broadcasting is only allowed for rank indices with dimension #, from either IFM# or IFM#", n!"constraint_broadcast_shapes", false),
+    (n!"Product of reduced axes must be no greater than:", n!"constraint_mean_height_width_product", false),
+    (n!"If Width axis is reduced its shape must be no greater than #.", n!"constraint_mean_width", false),
+    (n!"If Depth axis is reduced its shape must be no greater than #.", n!"constraint_mean_depth", false),
+    (n!"Shape must be constant", n!"constraint_reshape_shape_constant", false),
+    (n!"Operation must be performed along the depth axis", n!"constraint_argmax_axis", false),
+    (n!"IFM depth must be no greater than #", n!"constraint_argmax_depth", false),
+    (n!"Must not use CIFG", n!"constraint_lstm_no_cifg", false),
+    (n!"Must not use Peephole", n!"constraint_lstm_no_peep_hole", false),
+    (n!"Must not use Projection", n!"constraint_lstm_no_projection", false),
+    (n!"Must not use Normalisation", n!"constraint_lstm_no_normalisation", false),
+    (n!"All input and recurrent weights must be available", n!"constraint_lstm_weights", false),
+    (n!"All recurrent weights must be #D", n!"constraint_lstm_weight_dimensions", false),
+    (n!"IFM must be int#", n!"constraint_rsqrt_input_int8", false),
+    (n!"Begin and Size Input tensors must be constant", n!"constraint_slice_inputs_const", false),
+    (n!"The following shape/permutations are supported for transpose:", n!"constraint_transpose", false) ]
 
-def readBullet (b : String) : Option (String × Bool) :=
-  (docKeys.find? (·.1 == normalise b)).map (·.2)
+def readBullet (b : Name) : Option (Name × Bool) :=
+  let k := normalise b
+  (docKeys.find? (·.1 == k)).map (·.2)
 
 -- ------------------------------------------------------------------------------------------------
 -- bounds and sets taken from the text
 
-def allBullets (r : Report) : List String :=
+def allBullets (r : Report) : List Name :=
   r.generic.map (·.1) ++ (r.specific.map (·.2)).flatten
 
-def bulletFor (r : Report) (name : String) : Option String :=
-  (allBullets r).find? fun b => match readBullet b with | some (n, _) => n == name | none => false
+def bulletFor (r : Report) (name : Name) : Option Name :=
+  match docKeys.find? (·.2.1 == name) with
+  | some (key, _, _) =>
+    -- cheap pre-filter on the first characters (no sentence has a numeral that early) before normalising
+    (allBullets r).find? fun b => b.take 8 == key.take 8 && normalise b == key
+  | none => none
 
 def intAt (l : List Nat) (i : Nat) : Option Int := (l[i]?).map Int.ofNat
 def pair? (l : List Nat) (i j : Nat) : Option (Int × Int) := do
   let a ← intAt l i; let b ← intAt l j; some (a, b)
 
-def numsOf (r : Report) (name : String) : Option (List Nat) := (bulletFor r name).map nums
-def enumOf (r : Report) (name : String) : Option (List String) :=
+def numsOf (r : Report) (name : Name) : Option (List Nat) := (bulletFor r name).map nums
+def enumOf (r : Report) (name : Name) : Option (List Name) :=
   (bulletFor r name).map fun b => (cutEnumeration (firstLine b)).2
 
 /-- external (TFLite) operator names → internal operator type names -/
-def toInternal (exts : List String) : List String :=
+def toInternal (exts : List Name) : List Name :=
   exts.filterMap fun e => (builtinOps.find? (·.1 == e)).map (·.2)
 
 def docParams (r : Report) : Option Params := do
   let n := numsOf r
-  let rng (name : String) : Option (Int × Int) := do pair? (← n name) 0 1
-  let one (name : String) : Option Int := do intAt (← n name) 0
-  let strides ← n "constraint_stride_width_no_upper_limit"
-  let mean ← n "constraint_mean_height_width_product"
+  let rng (name : Name) : Option (Int × Int) := do pair? (← n name) 0 1
+  let one (name : Name) : Option Int := do intAt (← n name) 0
+  let strides ← n n!"constraint_stride_width_no_upper_limit"
+  let mean ← n n!"constraint_mean_height_width_product"
   some {
-    tensDim := ← rng "constraint_tens_dimension"
-    stride := ← rng "constraint_stride_range"
-    dilH := ← rng "constraint_dilated_height_range"
-    dilProd := ← rng "constraint_dilated_product_range"
-    weightsLimit := ← one "constraint_weights_limit"
-    filter := ← rng "constraint_filter_range"
-    filterH := ← rng "constraint_filter_height_range"
-    filterProd := ← rng "constraint_filter_product_range"
-    meanMax := ← one "constraint_mean_width"
+    tensDim := ← rng n!"constraint_tens_dimension"
+    stride := ← rng n!"constraint_stride_range"
+    dilH := ← rng n!"constraint_dilated_height_range"
+    dilProd := ← rng n!"constraint_dilated_product_range"
+    weightsLimit := ← one n!"constraint_weights_limit"
+    filter := ← rng n!"constraint_filter_range"
+    filterH := ← rng n!"constraint_filter_height_range"
+    filterProd := ← rng n!"constraint_filter_product_range"
+    meanMax := ← one n!"constraint_mean_width"
     meanInt8 := ← intAt mean 0
     meanUint8 := ← intAt mean 2
     meanInt16 := ← intAt mean 4
-    opDtypes := ← enumOf r "constraint_tens_dtype"
-    fafDtypes := ← enumOf r "constraint_faf_type"
-    biasDtypes := ← enumOf r "constraint_bias_type"
-    padDtypes := ← enumOf r "constraint_pad_type"
-    int32Ops := toInternal (← enumOf r "constraint_tens_int32_ops")
-    perAxisOps := toInternal (← enumOf r "constraint_tens_quant_per_axis")
-    fafOps := toInternal (← enumOf r "constraint_faf")
-    shapelessOps := toInternal (← enumOf r "constraint_tens_input_scalar")
-    dwStride := ← rng "constraint_depthwise_conv_stride"
+    opDtypes := ← enumOf r n!"constraint_tens_dtype"
+    fafDtypes := ← enumOf r n!"constraint_faf_type"
+    biasDtypes := ← enumOf r n!"constraint_bias_type"
+    padDtypes := ← enumOf r n!"constraint_pad_type"
+    int32Ops := toInternal (← enumOf r n!"constraint_tens_int32_ops")
+    perAxisOps := toInternal (← enumOf r n!"constraint_tens_quant_per_axis")
+    fafOps := toInternal (← enumOf r n!"constraint_faf")
+    shapelessOps := toInternal (← enumOf r n!"constraint_tens_input_scalar")
+    dwStride := ← rng n!"constraint_depthwise_conv_stride"
     convStrideH := ← pair? strides 0 1
     convStrideW := ← pair? strides 3 4
     hwStrides := [← intAt strides 6, ← intAt strides 7]
-    avgStrideNoPad := ← intAt (← n "constraint_stride_range_no_padding") 1
-    biasBits := ← (← n "constraint_bias_40bit")[0]?
-    argmaxDepth := ← one "constraint_argmax_depth"
-    maxRank := ← (← n "constraint_tens_shape_size")[0]?
+    avgStrideNoPad := ← intAt (← n n!"constraint_stride_range_no_padding") 1
+    biasBits := ← (← n n!"constraint_bias_40bit")[0]?
+    argmaxDepth := ← one n!"constraint_argmax_depth"
+    maxRank := ← (← n n!"constraint_tens_shape_size")[0]?
   }
 
 -- ------------------------------------------------------------------------------------------------
@@ -244,24 +274,24 @@ def docParams (r : Report) : Option Params := do
 inductive DocVerdict where
   | silent                                  -- the report does not list the operator: it stays on the CPU
   | npu                                     -- every listed bullet holds
-  | cpu (idx : Nat) (bullet : String)       -- first listed bullet that does not hold
-  | raised (bullet : String) (what : String)
+  | cpu (idx : Nat) (bullet : Name)       -- first listed bullet that does not hold
+  | raised (bullet : Name) (what : String)
 deriving Repr, DecidableEq, Inhabited
 
-def extName (d : OpDesc) : String := ((opRow d).map (·.ext)).getD ""
+def extName (d : OpDesc) : Name := ((opRow d).map (·.ext)).getD []
 
 /-- the bullets report `r` lists for the operator with external name `ext` -/
-def bulletsFor (r : Report) (ext : String) : Option (List String) :=
+def bulletsFor (r : Report) (ext : Name) : Option (List Name) :=
   if r.table.any (·.1 == ext) then
     some (((r.generic.filter fun (_, ex) => !ex.contains ext).map (·.1)) ++ lookup r.specific ext)
   else none
 
-def evalBullet (P : Params) (b : String) (d : OpDesc) : R :=
+def evalBullet (P : Params) (b : Name) (d : OpDesc) : R :=
   match readBullet b with
   | some (name, isSem) => evalIn (if isSem then semPreds else supPreds) P name d
   | none => .error "unread-sentence"
 
-def docWalk (P : Params) (d : OpDesc) : List String → Nat → Option DocVerdict → DocVerdict
+def docWalk (P : Params) (d : OpDesc) : List Name → Nat → Option DocVerdict → DocVerdict
   | [], _, pending => pending.getD .npu
   | b :: bs, i, pending =>
     match evalBullet P b d with
@@ -274,14 +304,14 @@ def documented (r : Report) (d : OpDesc) : DocVerdict :=
   if ext.isEmpty then .silent else
   match bulletsFor r ext, docParams r with
   | none, _ => .silent
-  | some _, none => .raised "" "report-bounds-unreadable"
+  | some _, none => .raised [] "report-bounds-unreadable"
   | some bs, some P => docWalk P d bs 0 none
 
 def showDocVerdict : DocVerdict → String
   | .silent => "silent"
   | .npu => "npu"
-  | .cpu i b => s!"cpu {i} {b.replace " " "_"}"
-  | .raised b w => s!"raised {b.replace " " "_"} {w}"
+  | .cpu i b => s!"cpu {i} {(ofName b).replace " " "_"}"
+  | .raised b w => s!"raised {(ofName b).replace " " "_"} {w}"
 
 /-- The property on one operator instance: predicted (documented) placement vs observed placement
     (`npu` / `cpu`).  A prediction that could not be computed judges nothing. -/
@@ -293,42 +323,47 @@ def placementOk (pred obs : String) : Bool :=
 -- ------------------------------------------------------------------------------------------------
 -- report vs live objects
 
-def docOf (name : String) : String :=
-  match (semDocs ++ supDocs).find? (·.1 == name) with | some (_, d) => d | none => "?missing-doc:" ++ name
+def docOf (name : Name) : Name :=
+  match (semDocs ++ supDocs).find? (·.1 == name) with | some (_, d) => d | none => n!"?missing-doc:" ++ name
 
-def isSupportedType (ty : String) : Bool := (opSet supOpSets "supported_operators").contains ty
-def hasSpecific (ty : String) : Bool := supSpecific.any (·.1 == ty) || semSpecific.any (·.1 == ty)
-def extOf (ty : String) : String :=
-  match opRows.find? (·.name == ty) with | some r => (if r.ext.isEmpty then "UNKNOWN" else r.ext) | none => "UNKNOWN"
+def isSupportedType (ty : Name) : Bool := (opSet supOpSets n!"supported_operators").contains ty
+def hasSpecific (ty : Name) : Bool := supSpecificD.any (·.1 == ty) || semSpecificD.any (·.1 == ty)
+def extOf (ty : Name) : Name :=
+  match opRows.find? (·.name == ty) with | some r => (if r.ext.isEmpty then n!"UNKNOWN" else r.ext) | none => n!"UNKNOWN"
 
-def sameSet (a b : List String) : Bool := a.all b.contains && b.all a.contains
+def sameSet (a b : List Name) : Bool := a.all b.contains && b.all a.contains
 
 /-- summary table the generator must produce: TFLite operators whose internal type is supported -/
-def expectedTable : List (String × Bool) :=
+def expectedTable : List (Name × Bool) :=
   (builtinOps.filter fun (_, ty) => isSupportedType ty).map fun (ext, ty) => (ext, hasSpecific ty)
 
-def excludedExt (tbl : List (String × List String)) (c : String) : List String :=
+def excludedExt (tbl : List (Name × List Name)) (c : Name) : List Name :=
   (tbl.filter fun (_, cs) => cs.contains c).map fun (ty, _) => extOf ty
 
-def expectedGeneric : List (String × List String) :=
-  semGeneric.map (fun c => (docOf c, excludedExt semExclude c)) ++
-  supGeneric.map (fun c => (docOf c, excludedExt supExceptions c))
+def expectedGeneric : List (Name × List Name) :=
+  semGenericD.map (fun (c, doc) => (doc, excludedExt semExclude c)) ++
+  supGenericD.map (fun (c, doc) => (doc, excludedExt supExceptions c))
 
-/-- the constraint list the live objects enforce on internal type `ty`, as sentences, in the
-    arrangement of the report: generic (semantic, supported) minus exceptions, then specific -/
-def enforcedDocs (ty : String) : List String :=
-  ((semGeneric.filter fun c => !(lookup semExclude ty).contains c) ++
-   (supGeneric.filter fun c => !(lookup supExceptions ty).contains c) ++
-   lookup semSpecific ty ++ lookup supSpecific ty).map docOf
+def lookupD (tbl : List (Name × List (Name × Name))) (k : Name) : List (Name × Name) :=
+  ((tbl.find? (·.1 == k)).map (·.2)).getD []
 
-def enforcedNames (ty : String) : List (String × Bool) :=
-  (semGeneric.filter fun c => !(lookup semExclude ty).contains c).map (·, true) ++
-  (supGeneric.filter fun c => !(lookup supExceptions ty).contains c).map (·, false) ++
-  (lookup semSpecific ty).map (·, true) ++ (lookup supSpecific ty).map (·, false)
+/-- the constraints the live objects enforce on internal type `ty` — (function, sentence, is it a
+    TFLiteSemantic constraint) — in the arrangement of the report: generic (semantic, supported) minus
+    exceptions, then specific -/
+def enforced (ty : Name) : List (Name × Name × Bool) :=
+  match lookup semExclude ty, lookup supExceptions ty with
+  | semEx, supEx =>
+    ((semGenericD.filter fun (c, _) => !semEx.contains c).map fun (c, doc) => (c, doc, true)) ++
+    ((supGenericD.filter fun (c, _) => !supEx.contains c).map fun (c, doc) => (c, doc, false)) ++
+    ((lookupD semSpecificD ty).map fun (c, doc) => (c, doc, true)) ++
+    ((lookupD supSpecificD ty).map fun (c, doc) => (c, doc, false))
 
-def setsAgree (doc live : List String) : Bool :=
+def enforcedDocs (ty : Name) : List Name := (enforced ty).map (·.2.1)
+def enforcedNames (ty : Name) : List (Name × Bool) := (enforced ty).map fun (c, _, s) => (c, s)
+
+def setsAgree (doc live : List Name) : Bool :=
   -- the text can only name operators that have an external name
-  sameSet doc (live.filter fun ty => extOf ty != "UNKNOWN")
+  sameSet doc (live.filter fun ty => extOf ty != n!"UNKNOWN")
 
 def paramsAgree (doc live : Params) : List String :=
   (if doc.tensDim != live.tensDim then ["tens_dim_range"] else []) ++
@@ -362,71 +397,100 @@ def paramsAgree (doc live : Params) : List String :=
 
 /-- numerals of sentences whose bounds are literals of the function body (and of no `Params` field):
     the model's transcription uses exactly these -/
-def literalNums : List (String × List Nat) := [
-  ("constraint_batch_size", [1]),
-  ("constraint_depth_multiplier", [1, 1]),
-  ("constraint_tconv_stride", [1, 1, 2, 2, 2, 1, 1]),
-  ("constraint_resize", [1, 1, 1, 2, 4, 8, 1, 1, 2, 4, 8]),
-  ("constraint_resizebi_half_pixel_centers_dims", [1, 2]),
-  ("constraint_pad_shape", [3, 2, 4, 2]),
-  ("constraint_stridedslice_stride_values", [1]),
-  ("constraint_weights_type", [8]),
-  ("constraint_bias_shape", [1]),
-  ("constraint_broadcast_shapes", [1, 1, 2]),
-  ("constraint_stridedslice_input_count", [4]),
-  ("constraint_pad_input_count", [2]),
-  ("constraint_ellipsis_mask", [0]),
-  ("constraint_axis_valid", [0]),
-  ("constraint_mean_input_dims", [2]),
-  ("constraint_mean_axis", [2, 3, 4, 1, 1]),
-  ("constraint_fc_output_2d", [2]),
-  ("constraint_stride_range_no_padding", [1, 3]),
-  ("constraint_stride_width_no_upper_limit", [1, 3, 1, 1, 3, 1, 2, 3, 2, 3]),
-  ("constraint_mean_height_width_product", [16777216, 8, 8388608, 8, 65536, 16]),
-  ("constraint_transpose_permutation_size", [1]),
-  ("constraint_transpose_permutation_values", [0]) ]
+def literalNums : List (Name × List Nat) := [
+  (n!"constraint_batch_size", [1]),
+  (n!"constraint_depth_multiplier", [1, 1]),
+  (n!"constraint_tconv_stride", [1, 1, 2, 2, 2, 1, 1]),
+  (n!"constraint_resize", [1, 1, 1, 2, 4, 8, 1, 1, 2, 4, 8]),
+  (n!"constraint_resizebi_half_pixel_centers_dims", [1, 2]),
+  (n!"constraint_pad_shape", [3, 2, 4, 2]),
+  (n!"constraint_stridedslice_stride_values", [1]),
+  (n!"constraint_weights_type", [8]),
+  (n!"constraint_bias_shape", [1]),
+  (n!"constraint_broadcast_shapes", [1, 1, 2]),
+  (n!"constraint_stridedslice_input_count", [4]),
+  (n!"constraint_pad_input_count", [2]),
+  (n!"constraint_ellipsis_mask", [0]),
+  (n!"constraint_axis_valid", [0]),
+  (n!"constraint_mean_input_dims", [2]),
+  (n!"constraint_mean_axis", [2, 3, 4, 1, 1]),
+  (n!"constraint_fc_output_2d", [2]),
+  (n!"constraint_stride_range_no_padding", [1, 3]),
+  (n!"constraint_stride_width_no_upper_limit", [1, 3, 1, 1, 3, 1, 2, 3, 2, 3]),
+  (n!"constraint_mean_height_width_product", [16777216, 8, 8388608, 8, 65536, 16]),
+  (n!"constraint_transpose_permutation_size", [1]),
+  (n!"constraint_transpose_permutation_values", [0]) ]
 
 def literalProblems : List String :=
   literalNums.filterMap fun (name, ns) =>
-    if nums (docOf name) == ns then none else some s!"numerals of {name} changed"
+    if nums (docOf name) == ns then none else some s!"numerals of {ofName name} changed"
+
+def tableProblems (r : Report) : List String :=
+  if r.table == expectedTable then [] else ["summary table"]
+
+def genericProblems (r : Report) : List String :=
+  (if r.generic.map (·.1) == expectedGeneric.map (·.1) then [] else ["generic bullets"]) ++
+  ((r.generic.zip expectedGeneric).filterMap fun ((b, ex), (_, ex')) =>
+    if sameSet ex ex' then none else some s!"exclusions of: {ofName (firstLine b)}")
+
+/-- per operator of the report's table: the bullets listed for it are the sentences of the
+    constraints the live objects enforce on it -/
+def listProblems (r : Report) : List String :=
+  (r.table.filterMap fun (ext, _) =>
+    match builtinOps.find? (·.1 == ext) with
+    | some (_, ty) =>
+      if bulletsFor r ext == some (enforcedDocs ty) then none else some s!"constraint list of {ofName ext}"
+    | none => some s!"unknown operator {ofName ext}") ++
+  (if r.specific.map (·.1) == (r.table.filter (·.2)).map (·.1) then [] else ["specific sections"])
+
+/-- every sentence of either class is read (by `docKeys`) as the function it documents -/
+def sentenceProblems : List String :=
+  (semDocs.filterMap fun (c, doc) =>
+    if readBullet doc == some (c, true) then none else some s!"sentence of {ofName c} not read as itself") ++
+  (supDocs.filterMap fun (c, doc) =>
+    if readBullet doc == some (c, false) then none else some s!"sentence of {ofName c} not read as itself")
+
+def boundProblems (r : Report) : List String :=
+  match docParams r with
+  | some P => paramsAgree P liveParams
+  | none => ["bounds unreadable"]
 
 /-- every way report `r` and the live objects disagree -/
 def reportProblems (r : Report) : List String :=
-  (if r.table == expectedTable then [] else ["summary table"]) ++
-  (if r.generic.map (·.1) == expectedGeneric.map (·.1) then [] else ["generic bullets"]) ++
-  ((r.generic.zip expectedGeneric).filterMap fun ((b, ex), (_, ex')) =>
-    if sameSet ex ex' then none else some s!"exclusions of: {firstLine b}") ++
-  (expectedTable.filterMap fun (ext, _) =>
-    match builtinOps.find? (·.1 == ext) with
-    | some (_, ty) =>
-      if bulletsFor r ext == some (enforcedDocs ty) then none else some s!"constraint list of {ext}"
-    | none => some s!"unknown operator {ext}") ++
-  (if r.specific.map (·.1) == (expectedTable.filter (·.2)).map (·.1) then [] else ["specific sections"]) ++
-  -- every enforced sentence is read as the function that enforces it
-  ((expectedTable.map fun (ext, _) =>
-      match builtinOps.find? (·.1 == ext) with
-      | some (_, ty) => (enforcedNames ty).filterMap fun (c, isSem) =>
-          if readBullet (docOf c) == some (c, isSem) then none else some s!"sentence of {c} not read as {c}"
-      | none => []).flatten.eraseDups) ++
-  (match docParams r with
-   | some P => paramsAgree P liveParams
-   | none => ["bounds unreadable"]) ++
-  literalProblems
+  tableProblems r ++ genericProblems r ++ listProblems r ++ sentenceProblems ++ boundProblems r ++ literalProblems
 
-/-- differences between two reports, as stable keys -/
-def reportDrift (a b : Report) : List String :=
-  (a.table.filterMap fun (n, _) => if b.table.any (·.1 == n) then none else some s!"only-first:table:{n}") ++
-  (b.table.filterMap fun (n, _) => if a.table.any (·.1 == n) then none else some s!"only-second:table:{n}") ++
+/-- one difference between two reports: (kind, operator, constraint function or sentence)
+    kinds: 0 table row only in the first, 1 table row only in the second, 2 specific link differs,
+    3 generic part differs, 4 bullet only in the first, 5 bullet only in the second, 6 same bullets in
+    another order, 7 section only in the second although the operator is in both tables -/
+abbrev Drift := Nat × Name × Name
+
+def bulletId (x : Name) : Name := ((readBullet x).map (·.1)).getD (firstLine x)
+
+def reportDrift (a b : Report) : List Drift :=
+  (a.table.filterMap fun (n, _) => if b.table.any (·.1 == n) then none else some (0, n, [])) ++
+  (b.table.filterMap fun (n, _) => if a.table.any (·.1 == n) then none else some (1, n, [])) ++
   (a.table.filterMap fun (n, f) => match b.table.find? (·.1 == n) with
-    | some (_, f') => if f == f' then none else some s!"specific-link:{n}" | none => none) ++
-  (if a.generic == b.generic then [] else ["generic"]) ++
+    | some (_, f') => if f == f' then none else some (2, n, []) | none => none) ++
+  (if a.generic == b.generic then [] else [(3, [], [])]) ++
   ((a.specific.map fun (n, bs) =>
       let bs' := lookup b.specific n
-      (bs.filterMap fun x => if bs'.contains x then none else some s!"only-first:{n}:{(readBullet x).map (·.1) |>.getD (firstLine x)}") ++
-      (bs'.filterMap fun x => if bs.contains x then none else some s!"only-second:{n}:{(readBullet x).map (·.1) |>.getD (firstLine x)}") ++
-      (if bs.length == bs'.length && sameSet bs bs' && bs != bs' then [s!"order:{n}"] else [])).flatten) ++
+      (bs.filterMap fun x => if bs'.contains x then none else some (4, n, bulletId x)) ++
+      (bs'.filterMap fun x => if bs.contains x then none else some (5, n, bulletId x)) ++
+      (if bs.length == bs'.length && sameSet bs bs' && bs != bs' then [(6, n, [])] else [])).flatten) ++
   (b.specific.filterMap fun (n, _) =>
-    if a.specific.any (·.1 == n) || !(a.table.any (·.1 == n)) then none else some s!"only-second:section:{n}")
+    if a.specific.any (·.1 == n) || !(a.table.any (·.1 == n)) then none else some (7, n, []))
+
+/-- Differences between the committed SUPPORTED_OPS.md (first) and the fresh report (second) that are
+    recorded in known_findings.txt (keys `doc-drift:<kind>:<operator>:<constraint>`):
+    GELU, LOG and SQRT are accelerated but not documented; the committed file still promises
+    "The pad tensor can only pad width and height" for PAD, which the code no longer enforces. -/
+def knownDrift : List Drift :=
+  [ (1, n!"GELU", []), (1, n!"LOG", []), (1, n!"SQRT", []), (4, n!"PAD", n!"constraint_padding_dimensions") ]
+
+def showDrift (l : List Drift) : String :=
+  if l.isEmpty then "ok" else
+  "drift " ++ " ".intercalate (l.map fun (k, n, c) => s!"doc-drift:{k}:{ofName n}:{(ofName c).replace " " "_"}")
 
 def showProblems (l : List String) : String :=
   if l.isEmpty then "ok" else "problems " ++ "|".intercalate (l.map fun s => s.replace " " "_")
